@@ -61,6 +61,32 @@ Definition assumed_txs (cap : nat) (total buffer fee : Z) (single : bool) : Z :=
   if exact_note total buffer single && (0 <? cap)%nat then 0
   else stxs (Z.of_nat (length (greedy cap total buffer fee 0 0))).
 
+(** ** The same specification for arbitrary strategy bounds ([CanonicalOneTwoFive::new])
+
+    [L] is the descending list of admissible denominations; for a strategy with minimum
+    denomination [mn] (a power of ten) and maximum [mx] it is [series_of mn mx]. *)
+Definition series_of (mn mx : Z) : list Z := filter (fun s => (mn <=? s) && (s <=? mx)) all125.
+
+Fixpoint greedy_of (L : list Z) (fuel : nat) (total buffer fee cn k : Z) : list Z :=
+  match fuel with
+  | O => []
+  | S f => match find (fundable total buffer fee cn k) L with
+           | None => []
+           | Some s => s :: greedy_of L f total buffer fee (cn + s + buffer) (k + 1)
+           end
+  end.
+
+Definition exact_note_of (L : list Z) (total buffer : Z) (single : bool) : bool :=
+  single && (buffer <=? total) && existsb (Z.eqb (total - buffer)) L.
+
+Definition split_of (L : list Z) (cap : nat) (total buffer fee : Z) (single : bool) : list Z :=
+  if exact_note_of L total buffer single && (0 <? cap)%nat then [total - buffer]
+  else greedy_of L cap total buffer fee 0 0.
+
+Definition assumed_of (L : list Z) (cap : nat) (total buffer fee : Z) (single : bool) : Z :=
+  if exact_note_of L total buffer single && (0 <? cap)%nat then 0
+  else stxs (Z.of_nat (length (greedy_of L cap total buffer fee 0 0))).
+
 (** ** Clauses on a plan *)
 Fixpoint nonincreasing (l : list Z) : bool :=
   match l with
